@@ -123,7 +123,9 @@ def ladder_rows():
                     m = re.search(r"kind = op_t::([A-Z_]+);( negate = true;)?$", body)
                     need(m, "%s: case %s not recognised: %s" % (n, tk, body))
                     if tk == "EQUAL":
-                        need(body == "if (tflags.has_flags(PARSE_NO_ASSIGN)) tok.rewind(in); else kind = op_t::O_EQ;", n + ": EQUAL case changed")
+                        need(body in ("if (tflags.has_flags(PARSE_NO_ASSIGN)) tok.rewind(in); else kind = op_t::O_EQ;",
+                                      "if (tflags.has_flags(PARSE_NO_ASSIGN)) { tok.rewind(in); goto exit_loop; } kind = op_t::O_EQ;"),
+                             n + ": EQUAL case changed")
                     else:
                         need(body == m.group(0), "%s: case %s has extra statements: %s" % (n, tk, body))
                     ops.append((tk, m.group(1), bool(m.group(2))))
